@@ -370,15 +370,16 @@ class PybindWrapper:
         """
         variable_value = ""
         if variable.default is None:
-            variable_value = variable.name
+            # refer to the C++ variable itself
+            variable_value = namespace + variable.name
         else:
+            # the initializer is an expression, not a name in the namespace
             variable_value = variable.default
 
-        return '{prefix}{module_var}.attr("{variable_name}") = {namespace}{variable_value};'.format(
+        return '{prefix}{module_var}.attr("{variable_name}") = {variable_value};'.format(
             prefix=prefix,
             module_var=module_var,
             variable_name=variable.name,
-            namespace=namespace,
             variable_value=variable_value)
 
     def wrap_properties(self, properties, cpp_class, prefix='\n' + ' ' * 8):
